@@ -44,17 +44,6 @@ func vfsSeal() { vfsMut, vfsOutside = 0, 0 }
 func vfsTouched() int        { return vfsMut }
 func vfsTouchedOutside() int { return vfsOutside }
 
-func sameElems(a, b []string) bool {
-	if len(a) != len(b) {
-		return false
-	}
-	for i := range a {
-		if a[i] != b[i] {
-			return false
-		}
-	}
-	return true
-}
 
 func hasPrefixElems(a, pre []string) bool {
 	return len(a) >= len(pre) && sameElems(a[:len(pre)], pre)
@@ -156,6 +145,28 @@ func vfsMkdirAll(p string) bool {
 		}
 	}
 	return true
+}
+
+// vfsCreateExcl: O_CREATE|O_EXCL. 0 created, 1 the path exists already (whatever it is), 2 refused (no parent, ...)
+func vfsCreateExcl(p string) int {
+	e := verifPathElems(p)
+	if !vfsInside(e) {
+		vfsOutside++
+		vfsMut++
+	}
+	if len(e) == 0 || vfsTooLong(e) {
+		return 2
+	}
+	pi := vfsFind(e[:len(e)-1])
+	if pi < 0 || vfs[pi].kind != 1 {
+		return 2
+	}
+	if vfsFind(e) >= 0 {
+		return 1
+	}
+	vfsMut++
+	vfs = append(vfs, vEntry{elems: append([]string{}, e...), kind: 2})
+	return 0
 }
 
 func vfsCreate(p string) bool {
